@@ -10,6 +10,8 @@ C17's state after the append pipeline, read by `viewC03` (the concrete reading C
 (`sealedView = activeView`, `Proofs/C03C02.lean`).  Here that index is shown to be a `FracIdx` in C05's sense
 (`FracIdx.OK`) storing, for every first-delivered meta, a document with the meta's ID and its tokens - so `sys_read`
 applies to stores serving sealed fractions exactly as to stores serving active ones (`sys_ingest_to_read_sealed`).
+**Restriction:** every theorem here that takes `DistinctBulks` / `NonEmptyDocs` covers bulks WITHOUT nested metas only
+(`cons_sys_hd_hs_false_for_nested_witness`, Consistency/SysHyps.lean; see the header of Proofs/SystemClosed.lean).
 -/
 namespace SV.Sys
 open SV SV.Spec SV.ProxySearch SV.ProxyCompose SV.ProxyE2E
